@@ -470,9 +470,11 @@ Inductive arm := ArmWrite | ArmRead | ArmOther.
 Definition is_one_of (c : bytes) (l : list bytes) : bool := existsb (bytes_eqb c) l.
 
 Definition arm_of (c : bytes) : arm :=
-  if is_one_of c [c_set; c_del; c_drop; c_fset; c_flushdb; c_expire; c_persist; c_jset; c_pdel; c_rename; c_renamenx] then ArmWrite
+  if is_one_of c [c_set; c_del; c_drop; c_fset; c_flushdb; c_expire; c_persist; c_jset; c_jdel; c_pdel; c_rename; c_renamenx] then ArmWrite
   else if is_one_of c [c_get; c_keys; c_scan; c_ttl; c_type; c_jget; c_fget; c_exists; c_fexists] then ArmRead
-  else ArmOther.   (* jdel falls in the default arm: shared lock, no gate, no log (finding F3, owned by C03/C07/C15) *)
+  else ArmOther.
+(* jdel is in the write arm since the repair of finding F3 (it used to fall in the default arm:
+   shared lock, no leader / read-only gate, never logged — with that arm KsReplay.ks_noupd is false). *)
 
 Definition parse_cmd (e : env) (c : bytes) (args : list bytes) : parsed :=
   if bytes_eqb c c_set then parse_set e args
